@@ -5,8 +5,18 @@ package body
 // Contracts for govc (contract-based deductive verification, see /verif/DESIGN.md).
 // This file contains comments only and is compiled only with the build tag `verif`.
 
+// Multipart answers: the closing delimiter is written (Writer.Close) before the body's length and bytes are taken.
+//@ ghost var mpClosed bool
+//@ extern func multipart.NewWriter
+//@   modifies mpClosed
+//@   ensures !mpClosed && result != nil
+//@ extern func (*multipart.Writer).Close
+//@   modifies mpClosed
+//@   ensures mpClosed
 //@ func (*Modifier).ModifyResponse
 //@   serves C20
+//@   at call 0 of Bytes before assert[multipart-body-is-complete-before-its-length-is-taken] mpClosed
+//@   at call 1 of Bytes before assert[multipart-body-is-complete-before-its-bytes-are-taken] mpClosed
 //@   safe index slice make div assert
 //@   loop 0 invariant[pairs] forall k int :: 0 <= k && k < len(ranges) ==> len(ranges[k]) == 2
 //@   loop 0 invariant[allocated] forall k int :: 0 <= k && k < len(ranges) ==> allocated(ranges[k])
